@@ -945,18 +945,22 @@ def st_value(spec, models=None, budget=2, min_size=0):  # noqa: C901, PLR0911, P
 
 
 def _uniq_key(v):
-    """Equality key for set members / dict keys (1 == True == 1.0, NaN never equals)."""
-    if isinstance(v, bool) or isinstance(v, (int, float)):
-        return ("num", float(v)) if not isinstance(v, float) or v == v else ("nan", id(v))
+    """Equality key for set members / dict keys: 1 == True == 1.0 also inside tuples, and NaN equals NaN — two members
+    that differ only by the identity of a NaN object collapse as soon as both NaNs are one object (json.loads returns
+    one shared NaN), so such pairs are not generated."""
+    if isinstance(v, (bool, int, float)):
+        return ("num", float(v)) if not isinstance(v, float) or v == v else ("nan",)
     if isinstance(v, dict):
         if v["$"] == "dec":
             d = Decimal(v["s"])
             return ("num", float(d)) if d.is_finite() else ("dec", v["s"])
         if v["$"] == "float":
             return ("float", v["s"])
-        return json.dumps(v, sort_keys=True)
+        if v["$"] in ("set", "fset"):
+            return (v["$"], frozenset(_uniq_key(x) for x in v["v"]))
+        return tuple(sorted((k, _uniq_key(x)) for k, x in v.items()))
     if isinstance(v, list):
-        return json.dumps(v, sort_keys=True)
+        return tuple(_uniq_key(x) for x in v)
     return v
 
 
